@@ -59,6 +59,17 @@ impl fmt::Debug for FsWatcherBuilder {
 }
 
 fn id_of_path(id_builder: &mut IdBuilder, root: &Path, path: &Path) -> Option<OwnedDirEntry> {
+    entry_of_path(id_builder, root, path, false)
+}
+
+/// `was_dir` tells that the path is known to be (or to have been) a directory,
+/// which cannot be read from the file system once it was removed.
+fn entry_of_path(
+    id_builder: &mut IdBuilder,
+    root: &Path,
+    path: &Path,
+    was_dir: bool,
+) -> Option<OwnedDirEntry> {
     id_builder.reset();
 
     // The root directory itself has the empty id
@@ -79,7 +90,7 @@ fn id_of_path(id_builder: &mut IdBuilder, root: &Path, path: &Path) -> Option<Ow
     id_builder.push(path.file_stem()?.to_str()?)?;
     let id = id_builder.join();
 
-    let entry = if path.is_dir() {
+    let entry = if was_dir || path.is_dir() {
         OwnedDirEntry::Directory(id)
     } else {
         let ext = crate::utils::extension_of(path)?.into();
@@ -128,28 +139,35 @@ impl notify::EventHandler for NotifyEventHandler {
             Ok(event) => {
                 log::trace!("Received filesystem event: {event:?}");
 
+                // A removed directory cannot be recognized from the file system
+                let removed_dir = matches!(
+                    event.kind,
+                    notify::EventKind::Remove(notify::event::RemoveKind::Folder)
+                );
+
                 for path in event.paths {
                     let paths = match event.kind {
-                        // Creating or renaming an entry also changes the
-                        // content of its directory.
+                        // Creating, renaming or removing an entry also changes
+                        // the content of its directory.
                         notify::EventKind::Create(_)
+                        | notify::EventKind::Remove(_)
                         | notify::EventKind::Modify(notify::event::ModifyKind::Name(_)) => {
                             match path.parent() {
-                                Some(parent) => vec![&path, parent],
-                                None => vec![&*path],
+                                Some(parent) => vec![(&*path, removed_dir), (parent, false)],
+                                None => vec![(&*path, removed_dir)],
                             }
                         }
-                        notify::EventKind::Any | notify::EventKind::Modify(_) => vec![&*path],
-                        notify::EventKind::Remove(_) => match path.parent() {
-                            Some(parent) => vec![parent],
-                            None => vec![],
-                        },
+                        notify::EventKind::Any | notify::EventKind::Modify(_) => {
+                            vec![(&*path, false)]
+                        }
                         notify::EventKind::Access(_) | notify::EventKind::Other => return,
                     };
                     let ids = paths
                         .into_iter()
                         .flat_map(|p| self.roots.iter().map(move |r| (p, r)))
-                        .filter_map(|(path, root)| id_of_path(&mut self.id_builder, root, path));
+                        .filter_map(|((path, was_dir), root)| {
+                            entry_of_path(&mut self.id_builder, root, path, was_dir)
+                        });
 
                     if self.events.send_multiple(ids).is_err() {
                         drop(self.watcher.take());
